@@ -596,5 +596,5 @@ Theorem C18_translated_frontier :
                <-> In w (unspecified prod isinit nins inputs V)) /\
     (gen_unspecified isinit sorted_by_key (gen_input_frontier prod nins V) inputs = []
      <-> unspecified prod isinit nins inputs V = []).
-Proof. intros prod isinit nins sorted_by_key inputs V H. apply (gen_frontier_is_model prod isinit nins); exact H. Qed.
+Proof. intros prod isinit nins sorted_by_key inputs V H. exact (gen_frontier_is_model prod isinit nins (fun _ => []) (fun _ _ => []) 0 sorted_by_key inputs V H). Qed.
 Print Assumptions C18_translated_frontier.
